@@ -105,6 +105,13 @@ def roundtrip(ctx, p):
                 ctx.assume(False)
             R = xgi.from_bipartite_pandas_dataframe(df, node_column="Node ID", edge_column="Edge ID")
             ctx.require(nets.same(incid(R), nonempty(inc)), "dataframe round trip: incidences differ")
+        elif how == "dataframe_sc":
+            df = xgi.to_bipartite_pandas_dataframe(net)
+            if len(df) == 0:
+                ctx.assume(False)
+            R = xgi.from_bipartite_pandas_dataframe(df, create_using=xgi.SimplicialComplex, node_column="Node ID", edge_column="Edge ID")
+            ctx.require(type(R) is xgi.SimplicialComplex, "dataframe -> SimplicialComplex: wrong class")
+            ctx.require(_multiset(R._edge.values(), net._edge.values()), "dataframe -> SimplicialComplex: simplices differ")
         elif how == "hypergraph_dict":
             d = xgi.to_hypergraph_dict(net)
             R = xgi.from_hypergraph_dict(d, nodetype=_int(ctx), edgetype=_int(ctx))
@@ -142,7 +149,13 @@ def cross(ctx, p):
     src = nets.snap(net)
     with warnings.catch_warnings():
         warnings.simplefilter("ignore")
-        R = {"H": xgi.Hypergraph, "S": xgi.SimplicialComplex, "D": xgi.DiHypergraph}[how[-1]](net)
+        if p.get("form") == "function":
+            R = {"H": xgi.to_hypergraph, "S": xgi.to_simplicial_complex, "D": xgi.to_dihypergraph}[how[-1]](net)
+            ctx.require(isinstance(R, {"H": xgi.Hypergraph, "S": xgi.SimplicialComplex, "D": xgi.DiHypergraph}[how[-1]]), "to_* conversion function did not return a network of the target class")
+            if R is None:
+                return
+        else:
+            R = {"H": xgi.Hypergraph, "S": xgi.SimplicialComplex, "D": xgi.DiHypergraph}[how[-1]](net)
     a = nets.snap(R)
     ctx.require(nets.same(a["nodes"], src["nodes"]), "class conversion changed the node set or its order")
     ctx.require(nets.same(a["node_attr"], src["node_attr"]), "class conversion lost or changed node attributes")
@@ -214,7 +227,7 @@ def spec(tier, seed):
     units = []
     for cls, hows in (("H", ["hyperedge_list", "hyperedge_dict", "bipartite_edgelist", "incidence_matrix", "bipartite_graph", "dataframe", "hypergraph_dict", "hif_dict"]),
                       ("D", ["bipartite_edgelist", "bipartite_graph", "hif_dict"]),
-                      ("S", ["hif_dict"])):
+                      ("S", ["hif_dict", "dataframe_sc"])):
         for s in sh[cls]:
             for how in hows:
                 units.append(("C10.roundtrip", {"cls": cls, "shape": s, "how": how}))
@@ -225,6 +238,7 @@ def spec(tier, seed):
             for how in hows:
                 units.append(("C10.cross", {"cls": cls, "shape": s, "how": how}))
                 units.append(("C10.cross", {"cls": cls, "shape": s, "how": how, "attrs": False}))
+                units.append(("C10.cross", {"cls": cls, "shape": s, "how": how, "form": "function"}))
     for s in bip:
         nv = s[0] + s[1]
         nlinks = sum(len(e) for e in s[2])
